@@ -1227,3 +1227,11 @@ M('C19', 'cone angle from the upper z bound only', 'odl/tomo/geometry/conebeam.p
                               np.arctan(abs(space.partition.max_pt[2]) / dist))""",
   """        half_cone_angle = np.arctan(abs(space.partition.max_pt[2]) / dist)""",
   'cone_beam_geometry:h')
+M('C18', 'wavelet reconstruction crops only one odd axis', 'odl/trafos/wavelet.py',
+  """                    if n_recon == n_intended + 1:
+                        # Upsampling added one entry too much in this axis,
+                        # drop last one
+                        recon_slc.append(slice(-1))""",
+  """                    if n_recon == n_intended + 1 and not any(
+                            s != slice(None) for s in recon_slc):
+                        recon_slc.append(slice(-1))""", 'WaveletTransformInverse._call')
